@@ -30,16 +30,18 @@ def load_pem_key(
     if ssh_type and raw.startswith(ssh_type):
         key = load_ssh_public_key(raw, backend=default_backend())
 
-    elif b"OPENSSH PRIVATE" in raw:
+    # look for the PEM armor, not for a bare word: the octets of a DER key and
+    # the base64 body of a PEM key may contain any of these words by chance
+    elif b"-----BEGIN OPENSSH PRIVATE" in raw:
         key = load_ssh_private_key(raw, password=password, backend=default_backend())
 
-    elif b"PUBLIC" in raw:
+    elif b"PUBLIC KEY-----" in raw:
         key = load_pem_public_key(raw, backend=default_backend())
 
-    elif b"PRIVATE" in raw:
+    elif b"PRIVATE KEY-----" in raw:
         key = load_pem_private_key(raw, password=password, backend=default_backend())
 
-    elif b"CERTIFICATE" in raw:
+    elif b"-----BEGIN CERTIFICATE" in raw:
         cert = load_pem_x509_certificate(raw, backend=default_backend())
         return cert.public_key()
 
